@@ -1854,7 +1854,6 @@ impl<'a> Tagger<'a> {
                 Mal::LinLen if reif_lin => Some("lin-reif-length-unchecked"),
                 Mal::ZeroDivisor if has_folded_const_div(self.case, true) => Some("constant-division-by-zero-folded"),
                 Mal::Bounds if matches!(c.res, Res::Panic) => Some("empty-domain-view-panic"),
-                Mal::Arity if bad_row && matches!(c.res, Res::Panic) => Some("table-row-arity-panic"),
                 Mal::LinLen if plain_lin && has_sols && matches!(call, Call::Enumerate | Call::MinIter(_) | Call::MaxIter(_)) => Some("iterators-ignore-validation-error"),
                 _ if matches!(c.res, Res::Panic) && emptying_eq(self.case, c.alt.as_ref()) => Some("empty-domain-view-panic"),
                 _ => None,
